@@ -470,6 +470,8 @@ def spec_obligation(job, prop, func, desc, file_=None):
     """obligations of the specification itself (harness assertions, contract clauses, GUARANTEEs, asserts of the stubs and
     of the functions under contract) -- as opposed to generic safety checks of code that runs outside its contracts"""
     pr = prop or ""
+    if "undefined function should be unreachable" in desc:
+        return False          # code outside the job's contracts reached a callee the job has no body for: noise, not a verdict
     in_harness_tu = bool(file_) and (os.path.abspath(file_).startswith(CONTRACTS + os.sep) or os.path.abspath(file_).startswith(os.path.join(WORK, "gen")))
     return (func == job.harness or ".precondition." in pr or ".postcondition." in pr or desc.startswith("GUARANTEE") or
             (".assertion." in pr and (func in job.fuc or (func or "").startswith("verif_") or in_harness_tu)))
